@@ -74,9 +74,14 @@ def run(ctx):
         ctx.check(good, "R3.1", "cmp_streams:%s-vs-%s" % (pa_, pb_), cs.loc(),
                   "cmp_streams gives %s for relative paths '%s' and '%s'; the stream order must be the lexicographic order "
                   "of the relative paths" % (sorted(rets, key=str), pa_, pb_))
+    walk_flags = []
+
+    def s_nftw(ex_, st, a, f, e):
+        walk_flags.append(a[3] if len(a) > 3 else None)
+        return [(INT(0), {("WALKED", ()): INT(1), ("SORTED", ()): INT(0)}), (INT(-1), {})]
     ex = absint.Explorer(prog, effects=eff, auto_inline=False, loop_bound=2, summaries={
         "cmp_streams": lambda ex_, st, a, f, e: [(INT(0), {("SORTED", ()): INT(1)})],
-        "nftw": lambda ex_, st, a, f, e: [(INT(0), {("WALKED", ()): INT(1), ("SORTED", ()): INT(0)}), (INT(-1), {})],
+        "nftw": s_nftw,
         "opendir": lambda ex_, st, a, f, e: [(PTR("DIR"), {})], "closedir": lambda ex_, st, a, f, e: [(INT(0), {})],
         "snprintf": lambda ex_, st, a, f, e: [(INT(3), {})], "__builtin___snprintf_chk": lambda ex_, st, a, f, e: [(INT(3), {})]})
     # a list of two streams so that the merge sort of DL_SORT has something to compare
@@ -85,6 +90,12 @@ def run(ctx):
     outs = ex.run(tl, [PTR("TR"), ("str", "dir")], store)
     acc = [o for o in outs if o.kind == "ret" and o.ret == INT(0)]
     ctx.need(acc, "trace_load: no successful path explored")
+    # every stream below the trace directory is visited, also through symbolic links (traces are commonly
+    # assembled by linking per-node directories): the walk must not be a physical one (FTW_PHYS = 1 in <ftw.h>)
+    ctx.check(walk_flags and all(w is not None and w[0] == "int" and not (w[1] & 1) for w in walk_flags), "R3.1",
+              "trace_load:walk-follows-links", tl.loc(),
+              "the directory walk is started with flags %s: with FTW_PHYS the streams reached through a symbolic link "
+              "are silently left out of the replay" % [str(w) for w in walk_flags])
     # memset(trace) at the start wipes the seeded list; detect the sort by the comparator being reached
     uses_sort = any(n["k"] == "CallExpr" and n.get("callee") == "cmp_streams" and "DL_SORT" in " ".join(n.get("m", []))
                     for n in tl.nodes)
@@ -178,20 +189,27 @@ def run(ctx):
             ctx.check(not ins and all(r[0] == "int" and r[1] < 0 for r in rets), "R3.3", inst, st.loc(),
                       "a failing stream_step is not reported (returns %s)" % (rets,))
     pi = prog.fn("player_init", PL)
-    stepped = []
-    ex = absint.Explorer(prog, effects=eff, loop_bound=6, summaries={
-        "step_stream": lambda ex_, st_, a, f, e: [(INT(0), {("STEPPED", (st_.store.get(("NST", ()), INT(0))[1],)): a[1],
-                                                          ("NST", ()): INT(st_.store.get(("NST", ()), INT(0))[1] + 1)})],
-        "check_clock_gate": lambda ex_, st_, a, f, e: [(INT(0), {})], "heap_init": lambda ex_, st_, a, f, e: [(TOP, {})]})
-    store = {("TR", F("trace", "streams")): PTR("S0"), ("S0", F("stream", "next")): PTR("S1"),
-             ("S1", F("stream", "next")): PTR("S2"), ("S2", F("stream", "next")): NULL}
-    outs = [o for o in ex.run(pi, [PTR("PLY"), PTR("TR"), INT(0)], store) if o.kind == "ret" and o.ret == INT(0)]
-    ctx.need(outs, "player_init: no successful path")
-    for k, o in enumerate(outs):
-        n = o.store.get(("NST", ()), INT(0))[1]
-        got = [o.store.get(("STEPPED", (i,))) for i in range(n)]
-        ctx.check(got == [PTR("S0"), PTR("S1"), PTR("S2")], "R3.3", "player_init:steps-every-stream:path%d" % (k + 1),
-                  pi.loc(), "player_init steps %s of the 3 streams" % (got,))
+    # three streams; each may hold events (0) or be exhausted from the start (1, a thread that never flushed):
+    # every stream is stepped whatever its neighbours returned
+    for script in itertools.product((0, 1), repeat=3):
+        def s_step(ex_, st_, a, f, e, script=script):
+            k_ = st_.store.get(("NST", ()), INT(0))[1]
+            return [(INT(script[min(k_, 2)]), {("STEPPED", (k_,)): a[1], ("NST", ()): INT(k_ + 1)})]
+        ex = absint.Explorer(prog, effects=eff, loop_bound=6, summaries={
+            "step_stream": s_step,
+            "check_clock_gate": lambda ex_, st_, a, f, e: [(INT(0), {})], "heap_init": lambda ex_, st_, a, f, e: [(TOP, {})]})
+        store = {("TR", F("trace", "streams")): PTR("S0"), ("S0", F("stream", "next")): PTR("S1"),
+                 ("S1", F("stream", "next")): PTR("S2"), ("S2", F("stream", "next")): NULL}
+        outs = [o for o in ex.run(pi, [PTR("PLY"), PTR("TR"), INT(0)], store) if o.kind == "ret" and o.ret == INT(0)]
+        ctx.need(outs, "player_init: no successful path")
+        got_all = []
+        for k, o in enumerate(outs):
+            n = o.store.get(("NST", ()), INT(0))[1]
+            got_all.append([o.store.get(("STEPPED", (i,))) for i in range(n)])
+        ctx.check(all(g == [PTR("S0"), PTR("S1"), PTR("S2")] for g in got_all), "R3.3",
+                  "player_init:steps-every-stream:empty=%s" % "".join(map(str, script)), pi.loc(),
+                  "with streams that are (0: non-empty, 1: exhausted at once) = %s, player_init steps %s of the 3 streams: "
+                  "the events of a stream that is never stepped are lost" % (list(script), got_all))
     ps = prog.fn("player_step", PL)
     for prev in (None, "S1"):
         for sret in (0, 1, -1):
